@@ -595,6 +595,57 @@ def check_build(ix, rep, f, opname, online=False, rule='R-SEGBUILD', slot_prefix
     return n
 
 
+def _first_chunk_test(f, conds):
+    """one of the true path conditions of the filler says "nothing has been received before": a local bound, before the state attribute is
+    overwritten, to `self.A == <constructor value of A>` (or `self.A is None`), or `not self.F` / `self.F == False` for a flag -- with A / F
+    assigned in update() so that the test fails from the next update on"""
+    owner = f.owner
+    init = owner.methods.get('__init__') if owner is not None else None
+    ctor = {}
+    if init is not None:
+        for st in ast.walk(init.node):
+            if isinstance(st, ast.Assign) and len(st.targets) == 1 and isinstance(st.targets[0], ast.Attribute) and isinstance(st.targets[0].value, ast.Name) \
+                    and st.targets[0].value.id == 'self':
+                ctor[st.targets[0].attr] = ast.unparse(st.value).replace(' ', '').replace('"', "'")
+    written = {}
+    for st in ast.walk(f.node):
+        if isinstance(st, ast.Assign):
+            for t in st.targets:
+                if isinstance(t, ast.Attribute) and isinstance(t.value, ast.Name) and t.value.id == 'self':
+                    written.setdefault(t.attr, []).append(st)
+
+    def state_test(e):
+        """-> attribute A when e is `self.A == ctor(A)` / `self.A is None` (ctor None) / `not self.A` (ctor False)"""
+        if isinstance(e, ast.Compare) and len(e.ops) == 1 and isinstance(e.left, ast.Attribute) and isinstance(e.left.value, ast.Name) and e.left.value.id == 'self':
+            a = e.left.attr
+            k = ast.unparse(e.comparators[0]).replace(' ', '').replace('"', "'")
+            if isinstance(e.ops[0], (ast.Eq, ast.Is)) and a in ctor and ctor[a] == k:
+                return a
+        if isinstance(e, ast.UnaryOp) and isinstance(e.op, ast.Not) and isinstance(e.operand, ast.Attribute) and isinstance(e.operand.value, ast.Name) \
+                and e.operand.value.id == 'self' and ctor.get(e.operand.attr) in ('False', 'None', '[]', '0'):
+            return e.operand.attr
+        return None
+    locals_ = {}
+    for st in f.node.body:
+        if isinstance(st, ast.Assign) and len(st.targets) == 1 and isinstance(st.targets[0], ast.Name):
+            a = state_test(st.value)
+            if a is not None:
+                # bound before the attribute is overwritten
+                later = [w for w in written.get(a, []) if w.lineno > st.lineno]
+                if later:
+                    locals_[st.targets[0].id] = a
+    for (t, truth) in conds:
+        if not truth:
+            continue
+        for v in (t.values if isinstance(t, ast.BoolOp) and isinstance(t.op, ast.And) else [t]):
+            if isinstance(v, ast.Name) and v.id in locals_:
+                return True
+            a = state_test(v)
+            if a is not None and any(w.lineno > v.lineno for w in written.get(a, [])):
+                return True
+    return False
+
+
 def _loop_setup(f, info):
     """-> names, facts about the loop variable"""
     loop = info['loop']
@@ -783,6 +834,11 @@ def _check_build(rep, f, opname, online, rule, slot, info, origin=False, forms_o
                     problems.append(('filler', 'the filler segment is pushed even when begin = 0 (an empty or spurious segment at the start)', st.lineno))
                 if not W.entails(fx, i_sym - init_aff) or not W.entails(fx, init_aff - i_sym):
                     problems.append(('filler', 'the filler segment is not restricted to the first iteration', st.lineno))
+                if online and not _first_chunk_test(f, conds):
+                    problems.append(('first-chunk', 'the filler segment is pushed for every chunk whose first time-stamp is 0, not for the first chunk only: the path condition tests '
+                                     'the time-stamp, not whether anything has been received before.  An operand that repeats its frontier sample in the next update (every predicate '
+                                     'and every bounded operator does) starts that chunk at time 0 again when the first chunk was a single sample at 0 -- a second filler is pushed and '
+                                     'the output jumps back to time 0 (the concatenated time-stamps decrease)', st.lineno))
                 seen_forms.add('filler')
             elif isinstance(st, (ast.Pass, ast.Expr)):
                 continue
